@@ -553,6 +553,11 @@ func newSSAStyleFromString(content string, format map[int]string) (s *ssaStyle, 
 			return
 		}
 
+		// The ASS specification, Aegisub and ffmpeg spell this column "StrikeOut"
+		if attr == "StrikeOut" {
+			attr = ssaStyleFormatNameStrikeout
+		}
+
 		// Switch on attribute name
 		switch attr {
 		// Bool
